@@ -47,6 +47,10 @@ def check(ctx: Ctx, rep: Report):
     prog, res = ctx.prog, ctx.res
     fams = ctx.memo("families", lambda: families(prog, res))
     rep.rule("C02.R1", "AA55: no refusing path is feasible for a frame with correct length, type and 16-bit unsigned additive checksum", 4)
+    rep.rule("C02.R6", "every received byte string reaches the validator (no ad-hoc filtering in the receive callbacks)", 2)
+    from .proto import every_datagram_validated as _shared_C02_R6, proto_classes as _pcs
+    for _ci in _pcs(ctx):
+        _shared_C02_R6(ctx, rep, "C02.R6", _ci)
     rep.rule("C02.R2", "AA55 response-type comparison is exact for every response type the package uses", 10)
     rep.rule("C02.R3", "layout agreement: validator length/role bytes, trim_response slice, get_offset map and first_address flow", 12)
     rep.rule("C02.R4", "Modbus: no refusing path is feasible for a conforming read / write answer (RTU: trailing bytes allowed)", 20)
